@@ -171,3 +171,22 @@ package funnel
 //verif:ensures[all-or-error] err == nil ==> n == len(batch.records)
 //verif:ensures[acked-prefix] forall k in [0, n): dlqBatch.recordStatuses[k].Flag == RecordFlagAck
 //verif:loop 1 invariant 0 <= ackCount && ackCount <= len(dlqRecords) && len(dlqBatch.recordStatuses) == len(dlqRecords) && forall k in [0, ackCount): dlqBatch.recordStatuses[k].Flag == RecordFlagAck
+
+//verif:def posIdxInv(m) = m.posIndex != nil && forall key :: has(m.posIndex, key) ==> 0 <= m.posIndex[key] && m.posIndex[key] < len(m.positions)
+
+//verif:func (*multiAckNacker).indexOf(m, pos) (idx, err)
+//verif:requires posIdxInv(m)
+//verif:ensures[in-range] err == nil ==> 0 <= idx && idx < len(m.positions)
+//verif:modifies nothing
+
+//verif:func (*multiAckNacker).Ack(m, ctx, batch) (err)
+//verif:requires mInv(m) && posIdxInv(m) && BLens(batch)
+//verif:ensures[inv] mInv(m)
+//verif:loop 0 vars j
+//verif:loop 0 invariant mInv(m) && posIdxInv(m) && j < len(ob.positions) && BLens(ob) && m.released == old(m.released)
+
+//verif:func (*multiAckNacker).Nack(m, ctx, batch, taskID) (err)
+//verif:requires mInv(m) && posIdxInv(m) && BLens(batch)
+//verif:ensures[inv] mInv(m)
+//verif:loop 0 vars j
+//verif:loop 0 invariant mInv(m) && posIdxInv(m) && j < len(ob.positions) && BLens(ob) && m.released == old(m.released)
